@@ -55,6 +55,7 @@ func keyPathsOf(c *Ctx) (map[string]string, []string, error) {
 // value.  injectLevel -1: the minimal document (the leaf and the required top-level keys); docFilled: the object that
 // holds the leaf is filled in completely; >= 0: filled in, and an unknown key added at that object nesting level.
 const docFilled = -2
+const docSchemaNone = -3
 
 func docFor(kinds map[string]string, path string, leaf any, injectLevel int) map[string]any {
 	root := map[string]any{"name": "p", "arch": "amd64", "version": "1.0.0"}
@@ -306,9 +307,20 @@ func runC16(c *Ctx) error {
 		}
 		// once alone in the document and once with every scalar sibling set (whether a field is expanded must not
 		// depend on which of its neighbours are configured)
-		for _, mode := range []int{-1, docFilled} {
+		// the version fields once more under version_schema: none (the schema governs how the version is taken apart,
+		// not whether references in it are resolved)
+		modes := []int{-1, docFilled}
+		if p == "version" || p == "prerelease" || p == "release" || p == "version_metadata" || p == "epoch" {
+			modes = append(modes, docSchemaNone)
+		}
+		for _, mode := range modes {
 			for _, val := range []string{"${VERIF_X}", "plain value", " padded ", "$VERIF_X", "lib-$VERIF_X.so", "/usr/$VERIF_X/${VERIF_X}x"} {
-				cfg, err := parse(docFor(kinds, p, val, mode), env)
+				doc := docFor(kinds, p, val, mode)
+				if mode == docSchemaNone {
+					doc = docFor(kinds, p, val, -1)
+					doc["version_schema"] = "none"
+				}
+				cfg, err := parse(doc, env)
 				fam3.Eval(fmt.Sprintf("%s|%s|%d", p, val, mode), true)
 				if err != nil {
 					continue // e.g. enumerated/invalid for that field: not this property's business
